@@ -18,10 +18,11 @@ pub mod c15;
 pub mod c16;
 pub mod c17;
 pub mod c18;
+pub mod c19;
 pub mod c20;
 pub mod codec_common;
 pub mod typed;
 
 pub fn registry() -> Vec<PropMeta> {
-    vec![c01::meta(), c02::meta(), c03::meta(), c04::meta(), c05::meta(), c06::meta(), c07::meta(), c08::meta(), c09::meta(), c10::meta(), c11::meta(), c12::meta(), c13::meta(), c14::meta(), c15::meta(), c16::meta(), c17::meta(), c18::meta(), c20::meta()]
+    vec![c01::meta(), c02::meta(), c03::meta(), c04::meta(), c05::meta(), c06::meta(), c07::meta(), c08::meta(), c09::meta(), c10::meta(), c11::meta(), c12::meta(), c13::meta(), c14::meta(), c15::meta(), c16::meta(), c17::meta(), c18::meta(), c19::meta(), c20::meta()]
 }
